@@ -579,8 +579,17 @@ static err_t rngTimerRead(void* buf, size_t* read, size_t count)
 *******************************************************************************
 */
 
+#ifdef BEE2_VERIF
+err_t (*bee2VerifESRead)(size_t* read, void* buf, size_t count,
+	const char* source) = 0;
+#endif
+
 err_t rngESRead(size_t* read, void* buf, size_t count, const char* source)
 {
+#ifdef BEE2_VERIF
+	if (bee2VerifESRead)
+		return bee2VerifESRead(read, buf, count, source);
+#endif
 	if (strEq(source, "trng"))
 		return rngTRNGRead(buf, read, count);
 	else if (strEq(source, "trng2"))
